@@ -4,7 +4,7 @@
 # harness against it and runs one check there. Evidence/replays go to /tmp/mut/out.
 # /repo and /verif are never modified. Remove with: tools/mutant.sh clean
 set -eu
-M=/tmp/mut
+M=${M:-/tmp/mut}
 if [ "$1" = clean ]; then
   git -C /repo worktree remove --force $M/repo 2>/dev/null || true
   rm -rf $M; exit 0
@@ -18,16 +18,15 @@ git -C $M/repo checkout -q --detach "$(git -C /repo rev-parse HEAD)"
 git -C $M/repo reset -q --hard
 git -C $M/repo clean -qfd
 if [ "$patch" != none ]; then git -C $M/repo apply "$patch"; fi
-mkdir -p $M/harness
-rsync -a --delete --exclude target /verif/harness/ $M/harness/
-sed -i "s#/repo/#$M/repo/#g; s#/verif/harness/target#$M/harness/target#g; s#/verif/comp#$M/comp#g; s#/verif/codec#$M/codec#g" $M/harness/Cargo.toml $M/harness/.cargo/config.toml
-for d in comp codec; do
-  if [ -d /verif/$d ]; then
-    mkdir -p $M/$d
-    rsync -a --delete --exclude target /verif/$d/ $M/$d/
-    sed -i "s#/repo/#$M/repo/#g; s#/verif/$d/target#$M/$d/target#g" $M/$d/Cargo.toml $M/$d/.cargo/config.toml
-  fi
+case "$id" in C18|c18) hd=harness-async; bin=va ;; C19|c19) hd=harness-udp; bin=vudp ;; *) hd=harness; bin=vq ;; esac
+for d in harness comp codec $hd; do
+  [ -d /verif/$d ] || continue
+  mkdir -p $M/$d
+  rsync -a --delete --exclude target /verif/$d/ $M/$d/
+  for f in $M/$d/Cargo.toml $M/$d/.cargo/config.toml; do
+    [ -f $f ] && sed -i "s#/repo/#$M/repo/#g; s#/verif/#$M/#g" $f
+  done
 done
-cd $M/harness
-CARGO_NET_OFFLINE=true cargo build --offline -q --bin vq 2>$M/build.log || { tail -30 $M/build.log; echo "MUTANT-BUILD-FAILED"; exit 3; }
-VERIF_OUT=$M/out ./target/debug/vq "$id" "$@"
+cd $M/$hd
+CARGO_NET_OFFLINE=true cargo build --offline -q --bin $bin 2>$M/build.log || { tail -30 $M/build.log; echo "MUTANT-BUILD-FAILED"; exit 3; }
+VERIF_OUT=$M/out ./target/debug/$bin "$(echo $id | tr A-Z a-z)" "$@"
